@@ -18,6 +18,12 @@ mod cli_common;
 use cli_common::*;
 
 const CLASS_F11: &str = "context-separator-terminator-under-crlf-or-null-data";
+const CLASS_BINSEP: &str = "binary-file-message-not-separated-single-threaded";
+
+/// the block is nothing but `path: binary file matches (found …)`
+fn is_binmsg(path: &str, block: &[u8]) -> bool {
+    block.starts_with(format!("{}: binary file matches (found", path).as_bytes()) && split_lines(block).len() == 1
+}
 
 struct Ctx {
     rg: PathBuf,
@@ -210,6 +216,20 @@ fn parse(mode: &str, out: &[u8], names: &BTreeSet<String>) -> Result<Parsed, Str
                     continue;
                 }
                 let text = String::from_utf8_lossy(body).to_string();
+                // `path: binary file matches (…)` is a block of its own, with or without a blank line before it
+                if let Some(name) = names.iter().find(|nm| text.starts_with(&format!("{}: binary file matches (found", nm))) {
+                    if p.blocks.is_empty() {
+                        p.stray.extend(pending.drain(..));
+                    } else {
+                        let mut it = pending.drain(..);
+                        p.seps.push(it.next());
+                        p.stray.extend(it);
+                    }
+                    p.tags.push(format!("h{}", names.iter().position(|n| n == name).unwrap_or(0)));
+                    p.blocks.push((name.clone(), line.to_vec()));
+                    cur = Some(name.clone());
+                    continue;
+                }
                 if cur.is_none() {
                     if !names.contains(&text) {
                         return Err(format!("expected a path heading, found: {}", show(&line[..line.len().min(120)])));
@@ -392,11 +412,12 @@ fn run_tree(case: &str, ctx: &mut Ctx, drv: &mut Driver, rep: &mut Report) {
     if slow == 1 { rep.branch("slow-pre"); }
     if crlf == 1 { rep.branch("crlf"); }
     // C (single-threaded path): the model rebuilds the -j1 output from its blocks
-    let m1 = drv.ask(&format!("c08.seq {} {} {}", sep, term, blocks_sx(&p1.blocks)));
+    let items1: Vec<String> = p1.blocks.iter().map(|(path, b)| format!("({} {})", hex(b), is_binmsg(path, b) as u8)).collect();
+    let m1 = drv.ask(&format!("c08.seqb {} {} (items {})", sep, term, items1.join(" ")));
     if unhex(&m1).map_or(true, |m| m != canon_out(mode, &out1.stdout, &names)) {
         rep.violation(Violation {
             kind: "impl_vs_model".into(), class: "".into(),
-            tie: "rg -j1 output vs Model.BufWriter.outSeq over its blocks (theorem seq_output)".into(),
+            tie: "rg -j1 output vs Model.BufWriter.outSeqB over its blocks (theorems seq_output, C08_binary_partial)".into(),
             case: case.to_string(),
             detail: format!("the -j1 output is not its blocks joined by the printer-owned separator; stdout starts {}", show(&out1.stdout[..out1.stdout.len().min(200)])),
         });
@@ -493,19 +514,29 @@ fn run_tree(case: &str, ctx: &mut Ctx, drv: &mut Driver, rep: &mut Report) {
         if !pn.stray.is_empty() || !p1.stray.is_empty() {
             problems.push((format!("separator lines outside the gaps between blocks: {:?}", pn.stray.iter().map(|s| show(s)).collect::<Vec<_>>()), ""));
         }
-        // the separator between two blocks is the one the single-threaded run uses
-        let sep1: Option<Vec<u8>> = p1.seps.first().cloned().flatten();
-        let uniform1 = p1.seps.iter().all(|s| *s == sep1);
-        if !uniform1 { problems.push(("the -j1 separators are not uniform".into(), "")); }
-        if p1.blocks.len() >= 2 {
-            for s in &pn.seps {
-                if *s != sep1 {
-                    let class = if !guard { CLASS_F11 } else { "" };
-                    problems.push((format!("separator between blocks: -j1 writes {:?}, -j{} writes {:?}",
-                        sep1.as_ref().map(|s| show(s)), n, s.as_ref().map(|s| show(s))), class));
-                    break;
-                }
+        // separators: the model's separator line in every gap of both runs
+        let sep_bytes: Option<Vec<u8>> = if sep == "none" { None } else { unhex(&sep) };
+        let want1: Option<Vec<u8>> = sep_bytes.as_ref().map(|s| { let mut v = s.clone(); v.extend(unhex(term).unwrap_or_default()); v });
+        let wantn: Option<Vec<u8>> = sep_bytes.as_ref().map(|s| { let mut v = s.clone(); v.push(b'\n'); v });
+        for (i, g) in p1.seps.iter().enumerate() {
+            if *g != want1 {
+                let (path, b) = &p1.blocks[i + 1];
+                let class = if g.is_none() && is_binmsg(path, b) { CLASS_BINSEP } else { "" };
+                problems.push((format!("-j1: gap before the block of {} holds {:?}, the separator line is {:?}", path,
+                    g.as_ref().map(|s| show(s)), want1.as_ref().map(|s| show(s))), class));
+                break;
             }
+        }
+        for (i, g) in pn.seps.iter().enumerate() {
+            if *g != wantn {
+                problems.push((format!("-j{}: gap before the block of {} holds {:?}, the separator line is {:?}", n, pn.blocks[i + 1].0,
+                    g.as_ref().map(|s| show(s)), wantn.as_ref().map(|s| show(s))), ""));
+                break;
+            }
+        }
+        if want1 != wantn && p1.blocks.len() >= 2 && !guard {
+            problems.push((format!("separator between blocks: -j1 writes {:?}, -j{} writes {:?}",
+                want1.as_ref().map(|s| show(s)), n, wantn.as_ref().map(|s| show(s))), CLASS_F11));
         }
         if outn.exit() != out1.exit() {
             problems.push((format!("exit status {} with -j{}, {} with -j1", outn.exit(), n, out1.exit()), ""));
